@@ -83,7 +83,8 @@ def generate_big(rng, tier):
     60 nodes).  Every constraint is made true under a hidden witness, so the program is known to be
     satisfiable; a second family of sessions pins every variable to a value, which turns find_answer
     into a direct evaluation of the constraints on one assignment."""
-    n = rng.randint(12, 30)
+    huge = rng.random() < 0.15  # puzzle-sized: 60-150 variables, nodes over up to 100 distinct operands, hundreds of constraints
+    n = rng.randint(12, 30) if not huge else rng.randint(60, 150)
     decls = []
     for _ in range(n):
         r = rng.random()
@@ -110,13 +111,14 @@ def generate_big(rng, tier):
     # wide nodes over many DISTINCT variables ("at least one of these 20 cells", "exactly k of them", a long sum)
     bools = [i for i, d in enumerate(decls) if d["t"] == "b"]
     ints = [i for i, d in enumerate(decls) if d["t"] == "i"]
-    for _ in range(rng.randint(0, 3)):
+    wide_cap = 24 if not huge else 100
+    for _ in range(rng.randint(0, 3) if not huge else rng.randint(2, 5)):
         kind = rng.choice(["fold_or", "fold_and", "count", "nadd", "orn", "andn"])
         if kind in ("nadd",) and len(ints) >= 4:
-            items = [["i", i] for i in rng.sample(ints, rng.randint(4, min(len(ints), 24)))]
+            items = [["i", i] for i in rng.sample(ints, rng.randint(4, min(len(ints), wide_cap)))]
             node = [rng.choice(["le", "ge", "eq", "ne"]), ["nadd", items], ["c", sum(witness[i[1]] for i in items) + rng.choice([-1, 0, 0, 1])], 0]
         elif len(bools) >= 4:
-            picked = rng.sample(bools, rng.randint(4, min(len(bools), 24)))
+            picked = rng.sample(bools, rng.randint(4, min(len(bools), wide_cap)))
             items = [["b", i] if rng.random() < 0.8 else ["not", ["b", i], 0] for i in picked]
             if kind == "count":
                 node = [rng.choice(["le", "ge", "eq"]), ["count", items, rng.randint(0, 3)], ["c", rng.randint(0, len(items))], 0]
@@ -132,6 +134,37 @@ def generate_big(rng, tier):
             cs.append(node)
         except Exception:
             pass
+    if huge:
+        # hundreds of tiny constraints (true under the witness) and one deep arithmetic chain
+        for _ in range(rng.choice([100, 128, 256, 300, 509, 600])):
+            i = rng.randrange(n)
+            if decls[i]["t"] == "b":
+                j = rng.choice(bools)
+                cs.append(["or", ["b", i] if witness[i] else ["not", ["b", i], 0], ["b", j], 0])
+            else:
+                cs.append([rng.choice(["le", "ge"]), ["i", i], ["c", witness[i]], 0] if rng.random() < 0.7 else ["ne", ["i", i], ["c", witness[i] + rng.choice([-1, 1])], 0])
+        if ints:
+            k = rng.choice(ints)
+            depth = rng.randint(30, 80)
+            chain = ["i", k]
+            total = witness[k]
+            for d_ in range(depth):
+                step = rng.randint(-2, 3)
+                if rng.random() < 0.5:
+                    chain = ["add", chain, ["c", step], 0]
+                    total += step
+                else:
+                    chain = ["sub", chain, ["c", step], 0]
+                    total -= step
+            cs.append(["eq", chain, ["c", total], 0])
+    if huge and rng.random() < 0.6:
+        # the number of posted constraints hits a round number exactly (batching boundaries)
+        target = rng.choice([64, 128, 255, 256, 257, 512, 1024])
+        while len(cs) > target:
+            cs.pop(rng.randrange(len(cs)))
+        while len(cs) < target:
+            i = rng.randrange(n)
+            cs.append((["b", i] if witness[i] else ["not", ["b", i], 0]) if decls[i]["t"] == "b" else ["eq", ["i", i], ["c", witness[i]], 0])
     pins = [witness]
     # boundary assignments: all low, all high, one-hot, one-cold
     lowest = [False if d["t"] == "b" else d["lo"] for d in decls]
